@@ -238,6 +238,17 @@ def strip_comments(txt):
             i += 1
     return ''.join(out)
 
+def unlisted_sources():
+    """every .v file under coq/ must be listed in _CoqProject (else a clean build would not check it)"""
+    listed = set(l.strip() for l in open(os.path.join(COQ, '_CoqProject')) if l.strip().endswith('.v'))
+    out = []
+    for dp, _, fs in os.walk(COQ):
+        for f in fs:
+            if f.endswith('.v'):
+                rel = os.path.relpath(os.path.join(dp, f), COQ)
+                if rel not in listed: out.append(rel)
+    return out
+
 def grep_forbidden():
     bad = []
     for dp, _, fs in os.walk(COQ):
@@ -264,6 +275,10 @@ def proof_step(prop, thorough=False):
     if not ok:
         # which theorem files failed?
         res['failed'].append('coq build failed: ' + '; '.join(re.findall(r'File "([^"]+)", line (\d+)', log)[:3].__repr__().split('\n')))
+        return res
+    ul = unlisted_sources()
+    if ul:
+        res['failed'].append('sources not listed in _CoqProject: ' + ', '.join(ul[:5]))
         return res
     bad = grep_forbidden()
     if bad:
